@@ -718,6 +718,11 @@ def search(ctx, budget_s):
     rng = random.Random(ctx.seed + 1616)
     n = 0
     cases = [known_f11_case(), known_edit_case()]
+    # caller-held taxon_state_sets_map objects shared between calls and trees (py/dv/c16_held.py)
+    from dv import c16_held
+    n += c16_held.search_held(ctx, random.Random(ctx.seed + 1617), 300)
+    if ctx.violations:
+        return
     while time.time() - t0 < budget_s and n < 20000:
         case = cases.pop() if cases else gen_case(rng)
         obs = observe(case)
@@ -743,6 +748,7 @@ def run(tier, seed, replay=None):
         "state sets are Z bitmasks of fundamental state indexes; the symbol -> state set tables of the alphabets are read from the library at run time (and compared with the documented meaning by the oracle)",
         "weights are Python ints (float weights not modelled); post-order / pre-order iteration of the tree is the structural one (C15)",
         "the model is a function of the matrix CONTENTS at the time of each call (passed per call); matrix object identity, re-use and in-place edits exist only on the implementation side and are checked against fresh copies by the oracle and against the model by the correspondence",
+        "held-map histories (py/dv/c16_held.py, coq/Model/C16ObjModel.v): the list objects of the rows of caller-held taxon_state_sets_map objects and of the node attributes are modelled as a heap; object identities are compared up to renaming (numbered by first appearance over all snapshots of a history, every observed object kept alive); set objects inside the lists are not tracked (fitch_* only build new sets); intermediate `result` lists of a polytomy's sequential fold are not allocated in the model (never stored, unobservable)",
         "theorems quantify over fully bifurcating trees with distinct node ids; the model also covers polytomies/unifurcations (sequential treatment / ValueError) for the correspondence only",
     ]
     if replay:
@@ -785,6 +791,18 @@ def run(tier, seed, replay=None):
 
     core.corr_stage(ctx, cases, observe_counted, to_coq, HEADER, "case_ok", oracle=oracle, show_fn="case_show",
                     nontrivial=nontrivial, search=search, shard=60 if tier == "quick" else 120, sample_fn=sample_fn)
+    # histories with caller-held taxon_state_sets_map objects shared between calls and tree objects; every map and
+    # every tree re-observed after every step, list-object identities up to renaming: coq/Model/C16ObjModel.v
+    from dv import c16_held
+    nh = 100 if tier == "quick" else 2000
+    hcases = [c16_held.demo_case()] + [c16_held.gen_held_case(ctx.rng) for _ in range(nh)]
+    for c in hcases:
+        c16_held.record(ctx, c)
+    core.corr_stage(ctx, hcases, c16_held.observe_held, c16_held.to_coq_held, c16_held.HEADER, "hcase_ok",
+                    oracle=c16_held.oracle_held, show_fn="hcase_show", nontrivial=c16_held.nontrivial_held, search=search,
+                    shard=(26 if tier == "quick" else 120), label="held",
+                    sample_fn=lambda c, o: {"kind": c["kind"], "steps": [[s["api"], s["tree"], s["map"]] for s in c["steps"]],
+                                            "results": [[x["res"], x["sbc"]] for x in o["steps"]]})
     return ctx.finish(
         level="proof",
         rule="random trees <=12 leaves (86% binary, rest polytomies/unifurcations), histories of 1-4 calls "
@@ -794,6 +812,11 @@ def run(tier, seed, replay=None):
              "(parsimony_score / fitch_down_pass with and without map / fitch_up_pass) with DNA, RNA, protein, "
              "standard, restriction and custom matrices over the full symbol sets, gaps_as_missing both ways, "
              "weights, ragged/missing rows; every history is replayed on the main tree, on fresh trees per call, "
-             "on a child-swapped copy and on re-rooted copies; thorough adds every ordered binary shape <=6 "
+             "on a child-swapped copy and on re-rooted copies; held-map histories: 1-3 tree objects (same tree twice, swapped, "
+             "re-rooted, other shape) x 2-4 caller-held taxon_state_sets_map objects of 1-3 matrices x 2-6 steps "
+             "(fitch_down_pass / fitch_up_pass with a held map or none, parsimony_score), after every step the contents "
+             "and row-object identities of every held map and the state_sets list object of every node of every tree "
+             "are compared with the object-level model, the oracle requires every held map unchanged and every scoring "
+             "step equal to a fresh tree with a freshly built map; thorough adds every ordered binary shape <=6 "
              "leaves x every column of leaf sets over 3 (<=4 leaves) or 2 states; a case is non-trivial when it "
              "has >=3 leaves and a positive score; distinct by full case content")
